@@ -46,10 +46,10 @@ var contents = []string{"random", "ascii", "utf8", "zeros", "nul-laden", "percen
 // ---- generators ----
 
 type builder struct {
-	rng     *gen.Rand
-	dtypeOK map[string]bool // envelope|dtype accepted by Acra's validation
-	nextID  int
-	zeroLenInWindow int
+	rng                *gen.Rand
+	dtypeOK            map[string]bool // envelope|dtype accepted by Acra's validation
+	nextID             int
+	zeroLenInWindow    int
 	maxZeroLenInWindow int
 }
 
@@ -249,10 +249,10 @@ func (b *builder) lookalike() spec {
 	r := b.rng
 	variant := b.pick([]string{"zero", "small", "twelve", "consistent", "beyond", "huge", "negative"})
 	where := b.pick([]string{"in-window", "in-window", "in-hidden", "straddling-boundary"})
-	if variant == "zero" && where == "in-window" {
-		// every such case costs one child process (see notes): a bounded number per run
+	if (variant == "zero" || variant == "negative") && where != "in-hidden" {
+		// on a tree without the repair these calls do not return and each costs one child process (see notes): a bounded number per run
 		if b.zeroLenInWindow >= b.maxZeroLenInWindow {
-			variant = "small"
+			variant = b.pick([]string{"small", "twelve", "consistent", "beyond", "huge"})
 		} else {
 			b.zeroLenInWindow++
 		}
@@ -403,11 +403,38 @@ func sharesRun(a, b []byte, k int) bool {
 
 // ---- oracle ----
 
+// refineCause names, from the INPUT alone (value, window length, side), two shapes of a clear window that are known to
+// matter to Acra's scanners even when the value class was not built to contain them (they occur by chance in random
+// and repeated-byte values): the signature stays a function of the input construction, never of Acra's answer.
+func refineCause(s spec, x []byte) string {
+	n := s.Set.N
+	if len(x) <= n || s.Hostile || s.Class == "hash-lookalike-window" {
+		return s.Cause
+	}
+	if s.Set.Side == "left" {
+		w := x[:n]
+		if n >= 1 && w[0] == 0x7f { // the 33 bytes taken for a hash may extend from the window into the stored envelope's header
+			return "window-starts-like-search-hash"
+		}
+		// "%%%" so close to the end of the window that a container header read from there runs into the header of the
+		// real envelope stored right behind the window (whose length byte can then be taken for an envelope id)
+		from := n - 11
+		if from < 0 {
+			from = 0
+		}
+		if bytes.Contains(w[from:], []byte("%%%")) {
+			return "percent-tag-within-11-bytes-of-window-end(" + s.Cause + ")"
+		}
+	}
+	return s.Cause
+}
+
 func judge(r *ev.Run, s spec, res result) {
 	r.Case()
 	x := res.X
 	n, pat := s.Set.N, []byte(s.Set.Pattern)
 	short := len(x) <= n
+	s.Cause = refineCause(s, x)
 	sigTail := fmt.Sprintf("side=%s short=%v envelope=%s pattern=%s pipeline=%s cause=%s", s.Set.Side, short, s.Set.Envelope, patternName(s.Set.Pattern), s.Pipeline, s.Cause)
 	detail := func(extra map[string]interface{}) map[string]interface{} {
 		m := map[string]interface{}{"keystore": s.KS, "setting": s.Set, "pipeline": s.Pipeline, "class": s.Class, "cause": s.Cause, "value": ev.FullHex(x), "value_len": len(x),
@@ -461,22 +488,21 @@ func judge(r *ev.Run, s spec, res result) {
 	// stored form: window in clear (allowed by design), everything else one envelope of the configured kind
 	if !storedOK {
 		r.Violation("stored form: the clear window is not where the configuration puts it: "+sigTail, detail(nil))
-		return
-	}
-	if s.PassThrough {
+		// the readers are still judged (the expected output follows from value and configuration alone)
+	} else if s.PassThrough {
 		r.Count("stored_form_not_judged(part_to_hide_is_already_an_envelope)", 1)
 	} else {
 		if why := wholeContainer(protected, s.Set.Envelope); why != "" {
 			r.Violation(fmt.Sprintf("stored form: protected part is not one whole envelope (%s): %s", why, sigTail), detail(nil))
-			return
-		}
-		if len(s.Marker) > 0 && bytes.Contains(protected, s.Marker) || len(hidden) >= 8 && (s.Class == "plain:random" || s.Class == "plain:ascii") && sharesRun(hidden, protected, 8) {
+			storedOK = false
+		} else if len(s.Marker) > 0 && bytes.Contains(protected, s.Marker) || len(hidden) >= 8 && (s.Class == "plain:random" || s.Class == "plain:ascii") && sharesRun(hidden, protected, 8) {
 			r.Violation("stored form: hidden plaintext present in the protected part: "+sigTail, detail(nil))
-			return
-		}
-		r.Count("stored_form_ok", 1)
-		if short {
-			r.Count("short_values_protected_in_full", 1)
+			storedOK = false
+		} else {
+			r.Count("stored_form_ok", 1)
+			if short {
+				r.Count("short_values_protected_in_full", 1)
+			}
 		}
 	}
 	// readers
@@ -489,7 +515,7 @@ func judge(r *ev.Run, s spec, res result) {
 	default:
 		expected = gen.Cat(pat, window)
 	}
-	ok := true
+	ok := storedOK
 	for _, rn := range readerNames {
 		rr := res.Reads[rn]
 		if rr.Panic != "" {
@@ -520,7 +546,8 @@ func judge(r *ev.Run, s spec, res result) {
 			switch {
 			case sharesRun(protected, rr.Out, 8) && !sharesRun(protected, expected, 8):
 				leak = "ciphertext"
-			case len(s.Marker) > 0 && bytes.Contains(rr.Out, s.Marker), len(hidden) >= 8 && sharesRun(hidden, rr.Out, 8) && !sharesRun(hidden, expected, 8):
+			case len(s.Marker) > 0 && bytes.Contains(rr.Out, s.Marker), len(hidden) >= 8 && sharesRun(hidden, rr.Out, 8) && !sharesRun(hidden, expected, 8),
+				len(hidden) > 0 && bytes.Contains(rr.Out, hidden) && !bytes.Contains(expected, hidden):
 				leak = "hidden-plaintext"
 			}
 			r.Violation(fmt.Sprintf("reader without the owner's keys does not receive exactly window+pattern: reader=%s leak=%s %s", rn, leak, sigTail), detail(map[string]interface{}{"expected": ev.FullHex(expected)}))
@@ -579,7 +606,7 @@ func Run(r *ev.Run) {
 		"a part to hide that is by itself one valid envelope is stored as it is (documented pass-through of application-side encrypted data, C01's subject): for it only the readers without the owner's keys are judged",
 	}
 	rng := gen.New(r.Seed, "c11")
-	b := &builder{rng: rng, dtypeOK: map[string]bool{}, maxZeroLenInWindow: r.Pick(3, 8)}
+	b := &builder{rng: rng, dtypeOK: map[string]bool{}, maxZeroLenInWindow: r.Pick(4, 12)}
 	refused := []string{}
 	for _, env := range []string{"acrastruct", "acrablock"} {
 		for _, dt := range []string{"", "str", "bytes", "int32", "int64"} {
